@@ -58,7 +58,9 @@ CommandSignature ShellCommand::getSignature() const {
     for (const auto& path: depsPaths) {
       code = code.combine(path);
     }
-    code = code.combine(int(depsStyle));
+    // NOTE: combine(int) would select the bool overload and map every style but
+    // "unused" to the same value.
+    code = code.combine(std::to_string(int(depsStyle)));
     code = code.combine(int(inheritEnv));
     code = code.combine(int(canSafelyInterrupt));
   }
